@@ -75,6 +75,8 @@ func genSrvReq(g *simrt.Tape) *ReqSc {
 			it.NoID = true
 		case 3:
 			it.Ext = "plain"
+		case 4:
+			it.Op = "discover"
 		}
 		rs.Items = append(rs.Items, it)
 	}
